@@ -215,3 +215,9 @@ func DeepEqual(a, b any) bool { return reflect.DeepEqual(a, b) }
 
 // GuardMap: every later access to map m is recorded as event "map:<name>" (for HeldDuring).
 func GuardMap(m any, name string) {}
+
+// Interleave registers an operation of another goroutine: symbolically it runs, at most once and
+// to completion, just before one of the following lock acquisitions of the calling code (every
+// choice, or never). Pass nil to cancel. Natively (replay) the recorded choice is consumed at ...
+// nothing: native replay does not preempt; harnesses using it replay symbolically.
+func Interleave(f func()) {}
